@@ -162,7 +162,7 @@ func c06(c *Ctx) {
 		gen := calls(fn, genNameInv)
 		for _, s := range sn {
 			arg := cfgx.CallArgs(s)[0]
-			r, p, ok := flow.AccessPath(arg)
+			r, p, ok := flow.AccessPathC(arg)
 			rc, isCall := r.(*ssa.Call)
 			good := ok && p == "Name" && isCall && strings.HasSuffix(cfgx.CalleeName(rc), "claim.Unstructured).GetResourceReference") && flow.Root(underIface(cfgx.Receiver(rc))) == cm
 			c.R.Check(good, site(s)+" recorded-name", c.pos(s.Pos()), "the XR is named cm.GetResourceReference().Name", "the written XR is named from something other than the claim's recorded resource reference")
